@@ -1593,11 +1593,11 @@ class ArmiObject(metaclass=CompositeModelType):
             nuc: val * factor for nuc, val in self.getNumberDensities().items()
         }
         self.setNumberDensities(densitiesScaled)
-        # Update detailedNDens
-        if self.p.detailedNDens is not None:
+        # Update detailedNDens (blocks and assemblies have it, a core does not)
+        if "detailedNDens" in self.p and self.p.detailedNDens is not None:
             self.p.detailedNDens *= factor
-        # Update pinNDens
-        if self.p.pinNDens is not None:
+        # Update pinNDens (a component-level parameter)
+        if "pinNDens" in self.p and self.p.pinNDens is not None:
             self.p.pinNDens *= factor
 
     def clearNumberDensities(self):
